@@ -13,7 +13,7 @@ import ast
 from dataclasses import dataclass, field
 
 from . import thirdparty as TP
-from .cfg import CFG, EXIT, own_statements
+from .cfg import CFG, ENTRY, EXIT, own_statements
 from .model import CORE_CLASSES, ClassInfo, External, FunctionInfo, ModuleInfo, Repo
 
 
@@ -116,14 +116,19 @@ class RngAnalysis:
                     parent_if[sub] = (st, "T")
                 for sub in st.orelse:
                     parent_if[sub] = (st, "F")
+        gen_defs = {}  # local name -> [(assignment, kind)]; kind: seeded | unseeded | module:NPG | module:PY | seedobj | other
         for st in stmts:
-            if isinstance(st, ast.Assign) and isinstance(st.value, ast.Call):
-                tgt = self._resolve(fn, st.value.func)
-                if isinstance(tgt, External) and tgt.path in TP.GENERATOR_CTORS:
-                    seeded = self._call_passes_seed(st.value, TP.GENERATOR_CTORS[tgt.path], 0, tainted)
-                    for t in st.targets:
-                        if isinstance(t, ast.Name):
-                            gens[t.id] = seeded
+            if isinstance(st, ast.Assign):
+                kind = self._gen_kind(fn, st.value, tainted, seedname)
+                for t in st.targets:
+                    if isinstance(t, ast.Name):
+                        gen_defs.setdefault(t.id, []).append((st, kind))
+        gen_defs = {k: v for k, v in gen_defs.items() if any(kd != "other" for _, kd in v)}
+        for k, v in gen_defs.items():
+            gens[k] = all(kd in ("seeded", "seedobj") for _, kd in v)
+        self._gen_ctxs = getattr(self, '_gen_ctxs', {})
+        self._gen_ctxs[fn.fq] = (fn, cfg, gen_defs, seedname)
+        for st in stmts:
             if isinstance(st, ast.Expr) and isinstance(st.value, ast.Call):
                 tgt = self._resolve(fn, st.value.func)
                 fam = None
@@ -154,7 +159,7 @@ class RngAnalysis:
         # pass 2: draws
         for st in stmts:
             for call in self._calls_of(st):
-                for d, covered_by_kw in self._draws_of_call(fn, call, tainted, gens):
+                for d, covered_by_kw in self._draws_of_call(fn, call, tainted, gens, st):
                     summ.draw_sites += 1
                     if covered_by_kw:
                         summ.covered.add(d)
@@ -217,15 +222,93 @@ class RngAnalysis:
             return True
         return False
 
-    def _draws_of_call(self, fn, call, tainted, gens):
+    def _gen_kind(self, fn, value, tainted, seedname):
+        """What a local name bound to `value` is, as a source of random numbers."""
+        if isinstance(value, ast.Call):
+            tgt = self._resolve(fn, value.func)
+            if isinstance(tgt, External) and tgt.path in TP.GENERATOR_CTORS:
+                return "seeded" if self._call_passes_seed(value, TP.GENERATOR_CTORS[tgt.path], 0, tainted) else "unseeded"
+            return "other"
+        if isinstance(value, (ast.Name, ast.Attribute)):
+            if isinstance(value, ast.Name) and seedname and value.id == seedname:
+                return "seedobj"
+            tgt = self._resolve(fn, value)
+            path = getattr(tgt, "path", None) if isinstance(tgt, External) else None
+            if path is None and isinstance(tgt, ModuleInfo):
+                path = tgt.name
+            if path in ("numpy.random", "numpy.random.mtrand", "numpy.random.mtrand._rand"):
+                return "module:NPG"
+            if path == "random":
+                return "module:PY"
+            return "other"
+        if isinstance(value, ast.IfExp):
+            a, b = self._gen_kind(fn, value.body, tainted, seedname), self._gen_kind(fn, value.orelse, tainted, seedname)
+            none_side = self._none_test(value.test, seedname)  # 'T': body taken when seed is None; 'F': orelse taken then
+            good = ("seeded", "seedobj")
+            if none_side == "T" and b in good and a != "other":
+                return "seeded"
+            if none_side == "F" and a in good and b != "other":
+                return "seeded"
+            if a in good and b in good:
+                return "seeded"
+            for k in (a, b):
+                if k not in good and k != "other":
+                    return k
+            return "other"
+        return "other"
+
+    @staticmethod
+    def _none_test(test, seedname):
+        """'T' when the test being true means `seed is None`, 'F' when it being false means that, else None."""
+        if isinstance(test, ast.Compare) and len(test.ops) == 1 and isinstance(test.left, ast.Name) and test.left.id == seedname and isinstance(test.comparators[0], ast.Constant) and test.comparators[0].value is None:
+            if isinstance(test.ops[0], (ast.Is, ast.Eq)):
+                return "T"
+            if isinstance(test.ops[0], (ast.IsNot, ast.NotEq)):
+                return "F"
+        return None
+
+    def _harmful_defs(self, name, st, ctx):
+        """Bindings of generator name `name` that are not derived from the seed and can reach statement `st` along a path
+        on which nothing says `seed is None` (the guard that legitimately selects the unseeded source)."""
+        fn, cfg, gen_defs, seedname = ctx
+        defs = gen_defs.get(name, [])
+        def_nodes = [d for d, _ in defs]
+
+        def edge_ok(a, b, lab):
+            if isinstance(a, ast.If) and seedname and lab in ("T", "F") and self._none_test(a.test, seedname) == lab:
+                return False
+            return True
+
+        live = cfg.reachable(ENTRY, edge_ok=edge_ok)
+        out = []
+        for d, kind in defs:
+            if kind in ("seeded", "seedobj"):
+                continue
+            if d not in live:
+                continue
+            if d is st or st in cfg.reachable(d, avoid=lambda n: any(n is x for x in def_nodes) and n is not st, edge_ok=edge_ok):
+                out.append((d, kind))
+        return out
+
+    def _draws_of_call(self, fn, call, tainted, gens, st=None):
         """Yields (Draw, covered_by_keyword)."""
         f = call.func
         out = []
         site = (fn.qualname, call.lineno)
         # generator object methods: rng.choice(...)
         if isinstance(f, ast.Attribute) and isinstance(f.value, ast.Name) and f.value.id in gens:
-            seeded = gens[f.value.id]
-            out.append((Draw("GEN" if seeded else "UNSEEDED", fn.fq, call.lineno, _unparse(call)), seeded))
+            name = f.value.id
+            ctx = getattr(self, '_gen_ctxs', {}).get(fn.fq)
+            harmful = self._harmful_defs(name, st, ctx) if st is not None and ctx is not None else [(None, "unseeded")] * (0 if gens[name] else 1)
+            if not harmful:
+                out.append((Draw("GEN", fn.fq, call.lineno, _unparse(call)), True))
+                return out
+            for d, kind in harmful:
+                where = f" (bound at line {d.lineno}: `{_unparse(d, 60)}`; the bindings derived from the seed do not cover every seed that is not None)" if d is not None else ""
+                if kind.startswith("module:"):
+                    out.append((Draw(kind.split(":")[1], fn.fq, call.lineno, _unparse(call) + where), False))
+                else:
+                    out.append((Draw("UNSEEDED", fn.fq, call.lineno, _unparse(call) + where), False))
             return out
         # inline default_rng(seed).random(...)
         if isinstance(f, ast.Attribute) and isinstance(f.value, ast.Call):
